@@ -89,6 +89,7 @@ func checkCanWriteGuards(k *eng.Check) {
 		"(*store/nbs.journalWriter).loadJournalIndex",
 		"(*store/nbs.journalWriter).readJournalIndex",
 		"(*store/nbs.journalWriter).corruptIndexRecovery",
+		"store/nbs.processJournalRecords", // tryTruncate is the can-write predicate handed down by bootstrapJournal
 	}
 	nMut := 0
 	for _, name := range guarded {
